@@ -31,6 +31,9 @@ def dispatch(prop):
     if prop == "C14":
         import uncertainty
         return uncertainty.run_c14
+    if prop == "C19":
+        import names
+        return names.run_c19
     if prop == "C08":
         import conversions
         return conversions.run_c08
